@@ -829,6 +829,10 @@ def r03_8(rep: Report) -> None:
                 rep.ok(rid, c, 'no entry only when there is no senc sample', f'{len(states)} path(s)')
         elif isinstance(v, (ast.List, ast.Tuple)) and len(v.elts) == 1 and norm(v.elts[0]) in pos_names:
             rep.ok(rid, c, 'one entry: the first sample position')
+        elif isinstance(v, (ast.List, ast.Tuple)) and len(v.elts) == 1 and isinstance(v.elts[0], ast.Constant) \
+                and v.elts[0].value == 0 and states and all(
+                    any(pc_entails(x[0], ('atom', f'{p_} < 0')) is True for p_ in pos_names) for x in states):
+            rep.ok(rid, c, 'one entry: the clamped position', 'the entry 0 only where the position is negative')
         else:
             rep.fail(rid, c, 'one entry: the first sample position',
                      f'`{norm(st)[:80]}`: the reset saio is not written with the single entry [{sorted(pos_names)[0]}]', st)
